@@ -40,8 +40,15 @@ type Scenario struct {
 	Delays     []Delay          `json:"delays,omitempty"`
 	DeadlineNS int64            `json:"deadline_ns,omitempty"` // client context deadline (0: none)
 	CancelNS   int64            `json:"cancel_ns,omitempty"`   // cancel the client context after this much virtual time (-1: before the call)
-	ReqWindow  int              `json:"req_window,omitempty"`  // mem: bytes buffered client→server (0: unbounded)
-	RespWindow int              `json:"resp_window,omitempty"`
+	// HandlerExitDelayNS delays the return of ServeHTTP after the connect handler
+	// finished (middleware work after the handler): the transport-level end of
+	// the response arrives later than the protocol-level terminator.
+	HandlerExitDelayNS int64 `json:"handler_exit_delay_ns,omitempty"`
+	// ReqBodyDelayNS delays every read the transport performs on the request
+	// body (a transport whose body-writer goroutine lags behind).
+	ReqBodyDelayNS int64 `json:"req_body_delay_ns,omitempty"`
+	ReqWindow      int   `json:"req_window,omitempty"` // mem: bytes buffered client→server (0: unbounded)
+	RespWindow     int   `json:"resp_window,omitempty"`
 }
 
 // Trace is what happened.
@@ -57,11 +64,26 @@ type Trace struct {
 	HandlerCtxDone bool
 }
 
+type slowBody struct {
+	rc interface {
+		Read([]byte) (int, error)
+		Close() error
+	}
+	delay time.Duration
+}
+
+func (b *slowBody) Read(p []byte) (int, error) {
+	time.Sleep(b.delay)
+	return b.rc.Read(p)
+}
+func (b *slowBody) Close() error { return b.rc.Close() }
+
 type countingClient struct {
-	inner connect.HTTPClient
-	mu    sync.Mutex
-	n     int
-	resps int
+	reqBodyDelay time.Duration
+	inner        connect.HTTPClient
+	mu           sync.Mutex
+	n            int
+	resps        int
 }
 
 type countingBody struct {
@@ -81,6 +103,9 @@ func (b *countingBody) Close() error {
 }
 
 func (c *countingClient) Do(r *http.Request) (*http.Response, error) {
+	if c.reqBodyDelay > 0 && r.Body != nil {
+		r.Body = &slowBody{rc: r.Body, delay: c.reqBodyDelay}
+	}
 	resp, err := c.inner.Do(r)
 	if resp != nil && resp.Body != nil {
 		resp.Body = &countingBody{rc: resp.Body, c: c}
@@ -138,7 +163,14 @@ func Run(tt *testing.T, s Scenario) (*Trace, error) {
 	tr := &Trace{CtxDoneAt: -1}
 	log := &prog.HLog{}
 	hp := s.Handler
-	h := prog.NewHandler(s.Cfg.Kind, &hp, log, s.Cfg.HandlerOptions()...)
+	var h http.Handler = prog.NewHandler(s.Cfg.Kind, &hp, log, s.Cfg.HandlerOptions()...)
+	if s.HandlerExitDelayNS > 0 {
+		inner := h
+		h = http.HandlerFunc(func(w http.ResponseWriter, r *http.Request) {
+			inner.ServeHTTP(w, r)
+			time.Sleep(time.Duration(s.HandlerExitDelayNS))
+		})
+	}
 	delays := map[string]time.Duration{}
 	for _, d := range s.Delays {
 		delays[d.Point] = time.Duration(d.NS)
@@ -164,7 +196,7 @@ func Run(tt *testing.T, s Scenario) (*Trace, error) {
 			mem = &memnet.Mem{Handler: h, ReqWindow: s.ReqWindow, RespWindow: s.RespWindow}
 			hc = mem
 		}
-		cc := &countingClient{inner: hc}
+		cc := &countingClient{inner: hc, reqBodyDelay: time.Duration(s.ReqBodyDelayNS)}
 		ctx, cancel := context.WithCancel(context.Background())
 		if s.DeadlineNS > 0 {
 			var c2 context.CancelFunc
